@@ -642,7 +642,20 @@ fn cell_identity_templates(rep: &mut Report) {
         ("c := mut int 1; d := mut mut int c; e := *d; e += 1; (*c, *d == c)", "(2, true)"),
         ("c := mut any 0; c = [[c]]; x := *c; if a: [[any]] = x { a[0][0] == c } else { false }", "true"),
     ];
-    for (src, want) in cases {
+    // a cell over a constant content is a new cell each time its expression is evaluated (in a function called again, in a loop)
+    let mut fresh: Vec<(String, String)> = Vec::new();
+    for (content, bump, read, one) in [
+        ("(0, 10)", "t := *s; s = (t.0 + 1, t.1);", "u := *s; r := u.0;", "1"), ("(0, (1, 2))", "t := *s; s = (t.0 + 1, t.1);", "u := *s; r := u.0;", "1"), ("[0, 10]", "s += [1];", "r := std.len(*s);", "3"),
+        ("struct{n := 0}", "t := *s; s = struct{n := t.n + 1};", "u := *s; r := u.n;", "1"), ("\"a\"", "s += \"b\";", "r := std.len(*s);", "2"), ("0", "s += 1;", "r := *s;", "1"), ("(true, 0)", "t := *s; s = (false, t.1 + 1);", "u := *s; r := u.1;", "1"), ("0.5", "s += 1.0;", "r := *s;", "1.5f"),
+    ] {
+        fresh.push((format!("mk := () -> any {{ s := mut {content}; {bump} {read} return r }}; (mk(), mk(), mk())"), format!("({one}, {one}, {one})")));
+        fresh.push((format!("out := mut [any] []; i := mut 0; while *i < 3 {{ s := mut {content}; {bump} {read} out += [r]; i += 1; }} *out"), format!("[{one}, {one}, {one}]")));
+        fresh.push((format!("mk := () -> any {{ return mut {content} }}; a := mk(); b := mk(); (a == b, a == a)"), "(false, true)".to_string()));
+        fresh.push((format!("cs := [1, 2]~ @ (k: int) -> any {{ return mut {content} }} $]; cs[0] == cs[1]"), "false".to_string()));
+    }
+    let all: Vec<(String, String)> = cases.iter().map(|(a, b)| (a.to_string(), b.to_string())).chain(fresh).collect();
+    for (src, want) in &all {
+        let (src, want) = (src.as_str(), want.as_str());
         rep.evaluations += 1;
         rep.count("cell-identity-templates");
         let run = run_real(src, FUEL);
